@@ -363,6 +363,18 @@ func runC01(r *Run) {
 				onNotOk = bucketChoiceByLastWrite(f, commaok, zero)
 			}
 			r.check(onNotOk, s.fn+":bucket-fallback", r.pos(zero), "bucket 0 is used exactly when the hashed bucket is absent", "bucket-0 fallback is not on the !ok edge")
+			// both lookups go into the map of the same method: treeStack[m][hash] and treeStack[m][0]
+			mi, mz := bucketMapIndex(commaok.X), bucketMapIndex(zero.X)
+			if mi == nil || mz == nil {
+				if !sameExpr(commaok.X, zero.X) {
+					r.bad(s.fn+":fallback-of-the-same-method", r.pos(zero), "the hashed bucket and bucket 0 are not taken from one per-method map (treeStack[m]): the shape is not the one the rule reads")
+				} else {
+					r.ok(s.fn+":fallback-of-the-same-method", r.pos(zero), "both lookups read one map value")
+				}
+				continue
+			}
+			r.check(sameExpr(mi, mz), s.fn+":fallback-of-the-same-method", r.pos(zero), "bucket 0 is taken from the same method's map as the hashed bucket",
+				"the fallback bucket is taken from another method's map than the hashed one (treeStack[x][hash], then treeStack[y][0]): routes whose first segment is a parameter or wildcard are looked up under the wrong method — with a custom context `Post(\"/:id\")` then `GET /abc` answers 404 instead of 405, and Allow misses methods")
 		}
 	})
 
@@ -1070,4 +1082,57 @@ func bucketChoiceByLastWrite(f *ssa.Function, commaok, zero *ssa.Lookup) bool {
 		return !before(other) || later(want, other)
 	}
 	return holdsAfter(okEdge, h, z) && holdsAfter(notOkEdge, z, h)
+}
+
+// bucketMapIndex returns the index expression m of a per-method map read treeStack[m] (nil when v is not such a read).
+func bucketMapIndex(v ssa.Value) ssa.Value {
+	switch x := stripValue(v).(type) {
+	case *ssa.UnOp:
+		if ia, ok := x.X.(*ssa.IndexAddr); ok {
+			return ia.Index
+		}
+	case *ssa.Index:
+		return x.Index
+	}
+	return nil
+}
+
+// sameExpr: the two values are the same expression — the same SSA value, re-loads of one address, or calls of the same
+// argument-free method on the same receiver expression (c.getMethodInt() written twice).
+func sameExpr(a, b ssa.Value) bool {
+	a, b = stripValue(a), stripValue(b)
+	if sameValue(a, b) {
+		return true
+	}
+	ca, ok1 := a.(*ssa.Call)
+	cb, ok2 := b.(*ssa.Call)
+	if ok1 && ok2 && calleeName(&ca.Call) == calleeName(&cb.Call) && len(ca.Call.Args) == len(cb.Call.Args) {
+		if ca.Call.IsInvoke() != cb.Call.IsInvoke() {
+			return false
+		}
+		if ca.Call.IsInvoke() && !sameExpr(ca.Call.Value, cb.Call.Value) {
+			return false
+		}
+		for i := range ca.Call.Args {
+			if !sameExpr(ca.Call.Args[i], cb.Call.Args[i]) {
+				return false
+			}
+		}
+		return true
+	}
+	if ua, ok := a.(*ssa.UnOp); ok {
+		if ub, ok := b.(*ssa.UnOp); ok && ua.Op == ub.Op {
+			if fa, ok := ua.X.(*ssa.FieldAddr); ok {
+				if fb, ok := ub.X.(*ssa.FieldAddr); ok {
+					return fa.Field == fb.Field && sameExpr(fa.X, fb.X)
+				}
+			}
+			if ia, ok := ua.X.(*ssa.IndexAddr); ok {
+				if ib, ok := ub.X.(*ssa.IndexAddr); ok {
+					return sameExpr(ia.X, ib.X) && sameExpr(ia.Index, ib.Index)
+				}
+			}
+		}
+	}
+	return false
 }
